@@ -29,7 +29,9 @@ fn pairs(fam: KsfFamily, g: &mut Gen, thorough: bool) -> Vec<(KsfArg, KsfArg)> {
         KsfFamily::Sim => {
             let a = 1 + g.below(1000) as u32;
             let b = a + 1 + g.below(1000) as u32;
-            vec![(Absent, Absent), (Absent, Sim(0)), (Sim(0), Absent), (Sim(0), Sim(0)), (Sim(a), Sim(a)), (Sim(a), Sim(b)), (Absent, Sim(a)), (Sim(a), Absent), (Sim(a), Sim(0))]
+            vec![(Absent, Absent), (Absent, Sim(0)), (Sim(0), Absent), (Sim(0), Sim(0)), (Sim(a), Sim(a)), (Sim(a), Sim(b)), (Absent, Sim(a)), (Sim(a), Absent), (Sim(a), Sim(0)),
+                // instances whose output ignores the input: still two different instances
+                (Sim(crate::seams::SIMKSF_CONSTANT | a), Sim(crate::seams::SIMKSF_CONSTANT | a)), (Sim(crate::seams::SIMKSF_CONSTANT | a), Sim(crate::seams::SIMKSF_CONSTANT | b)), (Sim(a), Sim(crate::seams::SIMKSF_CONSTANT | a))]
         }
         KsfFamily::Identity => vec![(Absent, Absent), (Absent, Identity), (Identity, Absent), (Identity, Identity)],
         KsfFamily::Argon2 => {
